@@ -7,13 +7,18 @@ add_chart/replace_data call on the real library, the reference model is `c07_sha
 Enumerated (see c07_shapes.creation_shapes / history_shapes; all counts asserted against closed forms):
   creation   every writable XL_CHART_TYPE member (discovered behaviourally: add_chart does not raise
              NotImplementedError; floor 29) x
-             A leaf counts {1,2,3,300} x label kinds {str,int,float,date<1900-03-01,date>=1900-03-01,datetime}
-               x series {0,1,3};
+             A leaf counts {1,2,3,300} x label kinds {str, int, float, int_wide, float_wide (numbers that need
+               7..17 significant digits: 20240131, 1000001, 2^31, 999999999999, 1234.5678, 0.12345678, 0.1+0.2, ..;
+               none prints with an exponent), date<1900-03-01, date>=1900-03-01, datetime} x series {0,1,3};
              B every uniform-depth category forest with <=4 leaves, depth 2..3 (quick: 55) | <=6 leaves,
                depth 2..4 (thorough: 1792) x series {1,2}, values with None holes;
              C series counts {0,1,2,3,26,27} | 0..50 x leaves {1,3} x values {int,float(1e-07,-0.0,..),holes,empty};
              D four custom number formats (one containing '<') at chart-data, series and categories level;
              E one chart whose middle category label is the empty string;
+             F RAGGED category data (c07_shapes.ragged_shapes): the per-series point counts differ from the
+               number of leaf categories and from each other — every tuple of lengths {0..5}^ns over 3 flat
+               categories, ns in {1,2} (thorough {1,2,3}), and {0,2,4,6}^ns (thorough {0..6}^ns), ns in {1,2},
+               over a 2-level forest with 4 leaves: 62 (quick) | 314 (thorough) shapes, 'mixed' values;
              XY/bubble: series counts as C x length patterns {all 3, ragged (0,1,3), all 1, all 0} x values,
                300-point series, number formats.   Zero series is not generated for pie types (quantifier).
   histories  from each chart type and each of 6 representative shapes, every replace_data sequence of
@@ -24,6 +29,9 @@ Enumerated (see c07_shapes.creation_shapes / history_shapes; all counts asserted
              harness-side (saved part rewritten with bare lxml, deck re-opened) to {idx 2,3,0/order 0,1,2;
              idx 0,1,2/order 2,0,1; idx 0,5,6/order 0,1,2}, one replace_data with 2..6 series (shrink, same,
              grow by 1,2,3) on one chart type per writer family (thorough: every non-pie type).
+             extra     on a one-series chart of EVERY category chart type, one replace_data with every ragged
+             shape of F (the first series re-uses the surviving c:ser, further ones are cloned) and with
+             int_wide / float_wide labels x {1,7} categories (c07_shapes.replace_extra_shapes: 66 | 318 shapes);
              reuse     ONE chart-data object used twice (c07_shapes.reuse_pairs): add_chart(cd); cd grown through its own
              API — add_category (flat, and a new multi-level top category), add_sub_category, add_series,
              add_data_point; XY/bubble: every series position (first/middle/last) of 2- and 3-series data
@@ -79,12 +87,19 @@ RULE = ("state = canonical chart part; transition = one add_chart or replace_dat
         "every transition is compared with the reference model (schema error set, read-back of names/values/"
         "categories, idx/order uniqueness, preservation of everything but series data). Creation inputs: the full "
         "product described in the module docstring per writable chart type; histories: all replace_data sequences "
-        "up to the length bound over 6 shapes from each (type, shape) and from each corpus chart. Non-trivial = "
+        "up to the length bound over 6 shapes from each (type, shape) and from each corpus chart, plus one "
+        "replace_data per ragged / wide-numeric-label shape on every category chart type. Non-trivial = "
         "transitions whose supplied data has at least one series with at least one point or category (the "
         "read-back comparison is non-empty), counted per distinct (chart, path).")
 ASSUMPTIONS = [
     "bounded: leaf counts {1,2,3,300}, forests <=4 leaves/depth<=3 (quick) or <=6 leaves/depth<=4 (thorough), "
     "series counts {0,1,2,3,26,27} (quick) or 0..50 (thorough), history length <=2 (quick) or <=3 (thorough) over 6 shapes",
+    "ragged data (series lengths != leaf count): lengths {0..5} over 3 flat categories and {0,2,4,6} (thorough 0..6) over "
+    "4 two-level leaves, 1-2 (thorough flat: 1-3) series; through add_chart on every type and through ONE replace_data "
+    "on a one-series chart of every category type (not inside longer histories)",
+    "numeric category labels: small ints, short floats and a 12-member alphabet of 7..17-significant-digit numbers, all "
+    "of which Python prints without an exponent; numbers whose str() is exponent notation (1e-07, 1e+20) are not enumerated "
+    "as labels because 'decimal text' is ambiguous for them",
     "trusted base: libxml2 XSD validation of /repo/spec ISO-IEC-29500-4 dml-chart.xsd after MCE preprocessing; lxml c14n",
     "reference model of the supplied data (mc/props/c07_shapes.py) is hand-written and does not import pptx",
     "None category labels and non-string series names are outside the documented input domain and not enumerated",
@@ -857,6 +872,7 @@ def _path_brief(specs):
 _TYPES = []
 _CREATION = {}
 _HIST = {}
+_XTRA = {}
 _CORPUS = []
 
 
@@ -869,6 +885,9 @@ def _case_of(item):
         t = _TYPES[item[1]]
         H = _HIST[S.kind_of(t)]
         return {"src": "gen", "type": t, "ops": [H[i] for i in item[2]], "plant": True}
+    if mode == "x":
+        t = _TYPES[item[1]]
+        return {"src": "gen", "type": t, "ops": [S.REPLACE_BASE, _XTRA[S.kind_of(t)][item[2]]], "plant": True}
     if mode == "r":
         t = _TYPES[item[1]]
         name, b, a = S.reuse_pairs(S.kind_of(t))[item[2]]
@@ -1005,7 +1024,21 @@ def run(ctx):
                 items.append(("r", ti, pi, si))
         expected_reuse += n_pairs * len(REUSE_SECOND)
 
-    total = expected_creation + expected_hist + expected_corpus + expected_perm + expected_reuse
+    # one replace_data with ragged data / wide numeric labels on a one-series chart of every category type
+    expected_xtra = 0
+    for kind in ("cat", "xy", "bubble"):
+        shapes, size = S.replace_extra_shapes(kind, ctx.thorough)
+        if len(shapes) != size:
+            raise HarnessError("replace-extra generator for %s produced %d shapes, closed form %d" % (kind, len(shapes), size))
+        _XTRA[kind] = shapes
+    for ti, t in enumerate(_TYPES):
+        n = len(_XTRA[S.kind_of(t)])
+        items.extend(("x", ti, i) for i in range(n))
+        expected_xtra += n
+    if not expected_xtra:
+        raise HarnessError("no ragged/wide-label replace_data paths enumerated")
+
+    total = expected_creation + expected_hist + expected_corpus + expected_perm + expected_reuse + expected_xtra
     if len(items) != total:
         raise HarnessError("item list %d != closed form %d" % (len(items), total))
     fanout(ctx, _work, ctx.rotate(items))
@@ -1019,6 +1052,8 @@ def run(ctx):
     ctx.extra["corpus_decks_with_charts"] = len({c[0] for c in _CORPUS})
     ctx.extra["renumbered_series_paths"] = expected_perm
     ctx.extra["reused_chart_data_paths_enumerated"] = expected_reuse
+    ctx.extra["ragged_and_wide_label_replace_paths"] = expected_xtra
+    ctx.extra["ragged_shapes_per_category_type"] = S.ragged_shapes(ctx.thorough)[1]
     ctx.extra["history_length_bound"] = max_len
     ctx.sample({"chart": _TYPES[3], "ops": [_spec_brief(_CREATION[("cat", False)][100])]})
     if ctx.counters.get("paths", 0) != total:
